@@ -15,7 +15,7 @@ META = dict(
     watchdog_s={"quick": 1500, "thorough": 5400},
     evaluations_counter="cases",
     min={"tensors_checked": 5000, "c06_checked_at_dispatch": 1000, "c06_checked_at_function": 1000,
-         "c06_move_checks": 300, "roundtrip_checks": 100, "freeze_checks": 50, "deepcopy_checks": 50},
+         "c06_move_checks": 300, "roundtrip_checks": 40, "freeze_checks": 50, "deepcopy_checks": 50},
     anchors=["tensor/qtensor.py:QTensor.__torch_function__", "tensor/qbytes.py:QBytesTensor.__torch_dispatch__",
              "tensor/qbits/qbits.py:QBitsTensor.__torch_dispatch__", "tensor/qbytes.py:QBytesTensor.__tensor_flatten__",
              "tensor/qbits/qbits.py:QBitsTensor.__tensor_flatten__"],
@@ -148,13 +148,13 @@ def run(ctx):
                         seq.append(("deepcopy", dispatchmon.kind_of(cur), ""))
                         cur = cp
                         continue
-                    if c < 0.16 and dispatchmon.is_q(cur):
+                    if c < 0.20 and dispatchmon.is_q(cur):
                         w2 = module_roundtrip(ctx, oq, cur, wd)
                         if w2 is not None:
                             seq.append(("state_dict_roundtrip", dispatchmon.kind_of(cur), ""))
                             cur = w2
                             continue
-                    if c < 0.22:
+                    if c < 0.26:
                         # freeze of a one-layer module: the frozen weight must satisfy the invariant for the request
                         out_f, in_f = int(r.choice([2, 8, 17, 32])), int(r.choice([4, 16, 33, 160, 256]))
                         wq = ["qint8", "qfloat8", "qfloat8_e5m2", "qint4", "qint2"][r.integers(5)]
